@@ -545,7 +545,7 @@ class StateEngine(object):
         in the ASL Engine at the moment this defensive logic will terminate
         the execution should this situation occur.
         """
-        if next_state == None:
+        if next_state == None or next_state == "":
             error_message = ("{} an error occurred while executing the state "
                              "\"{}\": Mandatory \"Next\" field is missing, "
                              "Illegal State Machine."
